@@ -1731,6 +1731,62 @@ pub fn c10_large(ctx: &mut Ctx) {
     run::<A32d>(&mut sp);
     run::<A64d>(&mut sp);
     run::<L160d>(&mut sp);
+    // chunks of 32 MiB and more: shrinking by less than a page still ends exactly at the bound
+    fn huge<T: Elem>(sp: &mut Sp) {
+        for mib in [32usize, 48] {
+            if !sp.take() {
+                continue;
+            }
+            reg::reset();
+            let opsig = "huge-shrink";
+            let n = (mib << 20) / size_of::<T>().max(1) + 100;
+            let desc = format!("{}:Heap|with_capacity({n}) [{mib} MiB], shrink_to(n-40), shrink_to(n-100), shrink_to_fit", T::NAME);
+            let live_before = monalloc::stats().live;
+            monalloc::window_open();
+            let r = guarded(|| -> Result<(), String> {
+                let mut v: AnyVec<dyn TNone, Heap> = AnyVec::with_capacity::<T>(n);
+                let mask = if T::ID_BITS == 0 { 0 } else { (1u64 << T::ID_BITS.min(32)) - 1 };
+                for i in 1..=3u64 {
+                    v.push(AnyValueWrapper::new(T::make(i & mask)));
+                }
+                if v.capacity() < n {
+                    return Err(format!("with_capacity({n}) gives capacity {}", v.capacity()));
+                }
+                let c = v.capacity();
+                for m in [n - 40, n - 100, n / 2 + 7] {
+                    v.shrink_to(m);
+                    let want = c.min(m);
+                    if v.capacity() != want {
+                        return Err(format!("shrink_to({m}) from capacity {c} ends at {} instead of {want}", v.capacity()));
+                    }
+                }
+                v.shrink_to_fit();
+                if v.capacity() != 3 {
+                    return Err(format!("shrink_to_fit with len 3 ends at {}", v.capacity()));
+                }
+                match snap_ids::<T, _, _>(&v) {
+                    Ok(ids) if ids == vec![1 & mask, 2 & mask, 3 & mask] => Ok(()),
+                    other => Err(format!("elements changed: {other:?}")),
+                }
+            });
+            monalloc::window_reset();
+            match r {
+                Ok(Ok(())) => {}
+                Ok(Err(m)) => sp.viol("capacity", opsig, m, &desc),
+                Err(m) => sp.viol("capacity", opsig, format!("panicked: {m}"), &desc),
+            }
+            sp.drain_alloc(opsig, &desc);
+            if monalloc::stats().live != live_before {
+                sp.viol("alloc-leak", opsig, "heap block(s) left allocated".into(), &desc);
+            }
+            sp.drain_reg(opsig, &desc);
+            sp.ctx.stats.bump("large_capacity_requests", 1);
+            sp.done(&desc, true, opsig);
+        }
+    }
+    huge::<W8d>(&mut sp);
+    huge::<U1d>(&mut sp);
+    huge::<S24d>(&mut sp);
     monalloc::set_mode(monalloc::MODE_OFF);
 }
 #[cfg(not(feature = "alloc"))]
@@ -2440,17 +2496,21 @@ mod statefulheap {
     /// A builder with identity and a destructor, producing the library's own heap storage.
     pub struct TaggedHeap {
         pub id: u32,
+        /// how many storages this builder object (and the ones it was cloned from) has handed out
+        pub builds: u32,
     }
     impl TaggedHeap {
         pub fn new() -> Self {
             LIVE.with(|l| l.set(l.get() + 1));
-            TaggedHeap { id: NEXT.with(|n| { let v = n.get(); n.set(v + 1); v }) }
+            TaggedHeap { id: NEXT.with(|n| { let v = n.get(); n.set(v + 1); v }), builds: 0 }
         }
     }
     impl Clone for TaggedHeap {
         fn clone(&self) -> Self {
             CLONES.with(|c| c.set(c.get() + 1));
-            TaggedHeap::new()
+            let mut b = TaggedHeap::new();
+            b.builds = self.builds;
+            b
         }
     }
     impl Drop for TaggedHeap {
@@ -2461,6 +2521,7 @@ mod statefulheap {
     impl MemBuilder for TaggedHeap {
         type Mem = <Heap as MemBuilder>::Mem;
         fn build(&mut self, element_layout: Layout) -> Self::Mem {
+            self.builds += 1;
             Heap.build(element_layout)
         }
     }
@@ -2510,6 +2571,14 @@ pub fn c17_builders(ctx: &mut Ctx) {
                     Ok(ids) if ids == (1..=4u64).map(|i| i & mask).collect::<Vec<_>>() => {}
                     other => return Err(format!("rebuilt vector holds {other:?}")),
                 }
+                // the builder a vector carries is the one that built its storage: an empty clone's builder has handed out
+                // one storage more than the source's had when it was copied
+                let e = v.clone_empty();
+                let pe = e.into_raw_parts();
+                if pe.mem_builder.builds != 2 {
+                    return Err(format!("the builder stored in clone_empty()'s result has built {} storage(s); it was copied from a builder that had built 1 and then built the clone's", pe.mem_builder.builds));
+                }
+                drop(unsafe { AnyVec::<dyn TNone, TaggedHeap>::from_raw_parts(pe) });
                 drop(v);
                 Ok(())
             });
